@@ -169,7 +169,11 @@ class SunVoxReader(Reader):
                     out_links.append(-1)
                 while out_link_idx >= len(out_link_slots):
                     out_link_slots.append(-1)
-                if out_link_idx == -1 or out_links[out_link_idx] not in (-1, mod.index):
+                if out_link_idx == -1 or (
+                    out_links[out_link_idx] != -1
+                    and (out_links[out_link_idx], out_link_slots[out_link_idx])
+                    != (mod.index, in_link_idx)
+                ):
                     # No slot, or one already claimed by another link: take a new one.
                     out_link_idx = in_link_slots[in_link_idx] = len(out_links)
                     out_links.append(-1)
